@@ -95,9 +95,21 @@ type fnRange struct {
 	name     string
 }
 
+// at is the source position of n; for calls the closing parenthesis (inner operands may already have
+// been replaced by synthesised, position-less nodes).
+func at(n ast.Node) token.Pos {
+	if c, ok := n.(*ast.CallExpr); ok && c.Rparen.IsValid() {
+		return c.Rparen
+	}
+	if ix, ok := n.(*ast.IndexExpr); ok && ix.Rbrack.IsValid() {
+		return ix.Rbrack
+	}
+	return n.Pos()
+}
+
 func (r *rw) funcOf(n ast.Node) string {
 	for _, f := range r.funcs {
-		if n.Pos() >= f.pos && n.Pos() < f.end {
+		if at(n) >= f.pos && at(n) < f.end {
 			return f.name
 		}
 	}
@@ -128,7 +140,7 @@ func (r *rw) collectFuncs(f *ast.File) {
 }
 
 func (r *rw) pos(n ast.Node) string {
-	p := r.fset.Position(n.Pos())
+	p := r.fset.Position(at(n))
 	return fmt.Sprintf("%s:%d", filepath.Base(p.Filename), p.Line)
 }
 
@@ -251,6 +263,7 @@ func (r *rw) raceRewrite(f *ast.File) {
 	sliceIdx := map[*ast.IndexExpr]bool{}  // element accesses s[i] on slices: the backing array is one location
 	mapCall := map[*ast.CallExpr]string{}  // delete(m,k) / len(m) on maps
 	copyCall := map[*ast.CallExpr]bool{}   // copy(dst, src) on slices (value: src is a slice too)
+	stdArg := map[*ast.CallExpr][]int{}    // arguments of type *bufio.Reader / *bufio.Writer
 	stdCall := map[*ast.CallExpr]string{}  // method calls on *bytes.Buffer / *bufio.Writer / *bufio.Reader
 	appendCall := map[*ast.CallExpr]bool{} // append(s, ...): writes behind len(s) in s's backing array
 	ast.Inspect(f, func(n ast.Node) bool {
@@ -285,6 +298,19 @@ func (r *rw) raceRewrite(f *ast.File) {
 			}
 			if id, ok := st.Fun.(*ast.Ident); ok && id.Name == "copy" && len(st.Args) == 2 && r.isSlice(st.Args[0]) {
 				copyCall[st] = r.isSlice(st.Args[1])
+			}
+			// a *bufio.Reader / *bufio.Writer handed to another function (buffs.WriteTo(w), http.ReadRequest(br))
+			// is used by the callee: a write to the object at the call
+			for i, a := range st.Args {
+				if tv, ok := r.info.Types[a]; ok && tv.Type != nil {
+					if pt, ok := tv.Type.(*types.Pointer); ok {
+						if n, ok := pt.Elem().(*types.Named); ok && n.Obj().Pkg() != nil && n.Obj().Pkg().Path() == "bufio" {
+							if _, isCall := a.(*ast.CallExpr); !isCall { // (a freshly constructed object is not shared yet)
+								stdArg[st] = append(stdArg[st], i)
+							}
+						}
+					}
+				}
 			}
 			// method calls on pointers to unsynchronised std-lib objects (bytes.Buffer, bufio.Reader/Writer):
 			// the object is one plain location, read-only methods are reads, all others writes
@@ -334,6 +360,10 @@ func (r *rw) raceRewrite(f *ast.File) {
 				r.used = true
 				n.Args[0] = call("vsched", fn, n.Args[0], lit("map|"+r.funcOf(n)+"|"+r.pos(n)))
 				return true
+			}
+			for _, i := range stdArg[n] {
+				r.used = true
+				n.Args[i] = call("vsched", "ObjW", n.Args[i], lit("bufio object (passed to a callee)|"+r.funcOf(n)+"|"+r.pos(n)))
 			}
 			if v, ok := stdCall[n]; ok {
 				parts := strings.SplitN(v, "|", 2)
